@@ -173,12 +173,12 @@ def ref_rows(decl_dicts):
     return out
 
 
-def ref_update_decl(d, data):
+def ref_update_decl(d, data, filtered_names=False):
     d = dict(d)
     nm = d.get((TEXTNS, u'name'))
     if nm in data:
         d[spec_attr(d.get((OFFICENS, u'value-type')))] = data[nm]
-    elif nm is not None:
+    elif nm is not None and filtered_names:
         # the tree may come from a load+save, where the writer's filter has already turned discouraged characters of
         # the name into U+FFFD: match names in lenient form
         for k in data:
@@ -187,12 +187,12 @@ def ref_update_decl(d, data):
     return d
 
 
-def ref_update_tree(tree, data):
+def ref_update_tree(tree, data, filtered_names=False):
     """copy of the tree with the named declarations' value attribute replaced"""
     if isinstance(tree, str):
         return tree
-    attrs = ref_update_decl(tree[1], data) if tree[0] == ufgen.DECL_Q else tree[1]
-    return [tree[0], attrs, [ref_update_tree(k, data) for k in tree[2]]]
+    attrs = ref_update_decl(tree[1], data, filtered_names) if tree[0] == ufgen.DECL_Q else tree[1]
+    return [tree[0], attrs, [ref_update_tree(k, data, filtered_names) for k in tree[2]]]
 
 
 XML_MEMBERS = (u'content.xml', u'styles.xml', u'meta.xml', u'settings.xml', u'META-INF/manifest.xml')
@@ -300,13 +300,33 @@ def run_case(chk, drv, case, tmpdir=None, lexical=False):
     sbuf = io.BytesIO(src)
     dbuf = io.BytesIO()
     cap = io.StringIO()
+    # every exception that escapes the tool on a well-formed source with schema-valid declarations is a property failure
+    raised = []
+
+    def call(op, f):
+        try:
+            return f()
+        except Exception as e:      # noqa
+            raised.append(op)
+            fail('tool-raises:%s:%s' % (type(e).__name__, op),
+                 '%s raised %r on a well-formed source whose declarations are schema-valid' % (op, e))
+            return None
     with contextlib.redirect_stdout(cap):
-        rows_src = UserFields(sbuf, dbuf).list_fields_and_values()
-        names_src = UserFields(sbuf, dbuf).list_fields()
+        call('loaddoc', lambda: UserFields(sbuf, dbuf).loaddoc())
+        rows_src = call('list_fields_and_values', lambda: UserFields(sbuf, dbuf).list_fields_and_values())
+        names_src = call('list_fields', lambda: UserFields(sbuf, dbuf).list_fields())
         first = rows_src[0][0] if rows_src and rows_src[0][0] is not None else u'nosuch'
-        got1 = UserFields(sbuf, dbuf).get(first)
-        got2 = UserFields(sbuf, dbuf).get_type_and_value(first)
-        got3 = UserFields(sbuf, dbuf).list_values([first, u'nosuch'])
+        got1 = call('get', lambda: UserFields(sbuf, dbuf).get(first))
+        got2 = call('get_type_and_value', lambda: UserFields(sbuf, dbuf).get_type_and_value(first))
+        got3 = call('list_values', lambda: UserFields(sbuf, dbuf).list_values([first, u'nosuch']))
+    if raised:
+        # nothing can be listed: still try the update, so that its failure is on record too
+        try:
+            UserFields(io.BytesIO(src), io.BytesIO()).update(dict(data))
+        except Exception as e:      # noqa
+            if not lexical:
+                fail('tool-raises:%s:update' % type(e).__name__, 'update raised %r on a well-formed source whose declarations are schema-valid' % (e,))
+        return fails
     if hashlib.sha256(sbuf.getvalue()).hexdigest() != h0:
         fail('source-modified', 'listing changed the bytes of the source')
     if dbuf.getvalue() != b'' or cap.getvalue() != u'':
@@ -342,7 +362,11 @@ def run_case(chk, drv, case, tmpdir=None, lexical=False):
             fail('listing-writes', 'listing through file names raised %r / wrote %d characters to stdout' % (err, len(cap.getvalue())))
     # ---------------- baseline: an ordinary load and save of the source
     abuf = io.BytesIO()
-    load(io.BytesIO(src)).save(abuf)
+    try:
+        load(io.BytesIO(src)).save(abuf)
+    except Exception as e:      # noqa
+        fail('tool-raises:%s:load+save' % type(e).__name__, 'an ordinary load and save of the source raised %r' % (e,))
+        return fails
     A = ufgen.unzip(abuf.getvalue())
     # ---------------- update
     sbuf = io.BytesIO(src)
@@ -352,6 +376,9 @@ def run_case(chk, drv, case, tmpdir=None, lexical=False):
         UserFields(sbuf, out).update(dict(data))
     except ValueError as e:
         exc = e
+    except Exception as e:      # noqa
+        fail('tool-raises:%s:update' % type(e).__name__, 'update raised %r' % (e,))
+        return fails
     if hashlib.sha256(sbuf.getvalue()).hexdigest() != h0:
         fail('source-modified', 'update changed the bytes of the source')
     # ---------------- model
@@ -373,11 +400,15 @@ def run_case(chk, drv, case, tmpdir=None, lexical=False):
         if out.getvalue() != b'':
             fail('failed-update-writes', 'update raised %r but wrote %d bytes' % (exc, len(out.getvalue())))
         if not lexical:
-            fail('update-raises', 'update raised %r on values valid for their types' % (exc,))
+            fail('tool-raises:%s:update' % type(exc).__name__, 'update raised %r on values valid for their types' % (exc,))
         return fails
     B = ufgen.unzip(out.getvalue())
-    with contextlib.redirect_stdout(io.StringIO()):
-        rows_out = UserFields(io.BytesIO(out.getvalue()), io.BytesIO()).list_fields_and_values()
+    try:
+        with contextlib.redirect_stdout(io.StringIO()):
+            rows_out = UserFields(io.BytesIO(out.getvalue()), io.BytesIO()).list_fields_and_values()
+    except Exception as e:      # noqa
+        fail('tool-raises:%s:list_fields_and_values(output)' % type(e).__name__, 'listing the output of update raised %r' % (e,))
+        return fails
     if drv is not None:
         itemsB = len_items(items_of(B, ordered_decl_attrs(B), intern, akeys))
         impl = 'ok ' + show_items(itemsB) + ' ; ' + show_rows(lenient(rows_out))
@@ -407,7 +438,7 @@ def run_case(chk, drv, case, tmpdir=None, lexical=False):
         if name not in dB:
             continue
         if name in XML_MEMBERS:
-            ta = lenient(ufgen.canon(ref_update_tree(ufgen.parse_tree(dA[name]), data)))
+            ta = lenient(ufgen.canon(ref_update_tree(ufgen.parse_tree(dA[name]), data, True)))
             tb = lenient(ufgen.canon(ufgen.parse_tree(dB[name])))
             if ta != tb:
                 fail('frame-xml-' + name.replace('/', '-'), 'infoset of %s after update differs from load+save with the named value attributes replaced' % name)
@@ -549,7 +580,8 @@ def run_history(chk, drv, case, tmpdir):
                     if diff:
                         fail('history-update', '%s: output differs from the same update made by a fresh object on the same bytes: %s' % (where, diff))
         except Exception as e:      # noqa
-            fail('history-raises', '%s raised %r' % (where, e))
+            fail('tool-raises:%s:%s' % (type(e).__name__, {'list': 'list_fields_and_values', 'names': 'list_fields'}.get(op, op)),
+                 '%s raised %r' % (where, e))
             break
         if cap.getvalue():
             fail('listing-writes', '%s wrote to stdout' % where)
@@ -584,14 +616,22 @@ def run(chk, replay=None):
         print('replay: %d failures %s' % (len(fails), fails[:3]))
         return 1 if fails else 0
     # 1 translate
-    m = translate_userfield.measure()
-    chk.write_generated('ValueTypes', translate_userfield.to_lean(m))
-    chk.extra_cov['value_type_tables'] = {'update': {str(k): v for k, v in m['upd'].items()},
-                                          'list': {str(k): v for k, v in m['list'].items()}, 'converters': m['conv']}
-    for n in m['notes']:
-        chk.notes.append(n)
+    try:
+        m = translate_userfield.measure()
+    except Exception as e:      # noqa
+        # the tool cannot even read the probe document: the tables cannot be measured (the generated file of the last run
+        # stays); the cases below will find the concrete input
+        m = None
+        chk.broken.append({'what': 'translator', 'detail': 'translate_userfield.measure() raised %r: the value-type tables '
+                           'could not be measured on this tree' % (e,)})
+    if m is not None:
+        chk.write_generated('ValueTypes', translate_userfield.to_lean(m))
+        chk.extra_cov['value_type_tables'] = {'update': {str(k): v for k, v in m['upd'].items()},
+                                              'list': {str(k): v for k, v in m['list'].items()}, 'converters': m['conv']}
+        for n in m['notes']:
+            chk.notes.append(n)
     # 2 prove
-    ok = chk.prove(drivers=['drv_userfield'])
+    ok = chk.prove(modules=['OdfModel.Props.C19', 'OdfModel.Props.C19Xml'], drivers=['drv_userfield'])
     if not ok:
         chk.lake(['build', 'drv_userfield'])
     chk.assumptions.append('C19: load/save underneath update is not modelled (property C05); the oracle compares update(out) with a plain '
@@ -599,9 +639,29 @@ def run(chk, replay=None):
     drv = chk.driver('drv_userfield')
     tmp = tempfile.mkdtemp(prefix='c19-')
     try:
-        # 3+4 generated cases
+        # 3+4 generated cases; the first ones are fixed: every value type of the ODF table (and none / unknown) is there on
+        # every run, alone and together, with the boundary characters of an XML writer's character filter in the values
+        fixed = []
+        alltypes = SEVEN + [None, u'zzz']
+        def decl_of(t, i):
+            a = [(u'text:name', u'f%d' % i)]
+            if t is not None:
+                a.append((u'office:value-type', t))
+            a.append((ATTR_PREFIXED[spec_attr(t)[1]], INITIAL.get(t, [u'7'])[0]))
+            if t == u'currency':
+                a.append((u'office:currency', u'EUR'))
+            return a
+        base = {'header': [], 'paras': [[u'p', u'f0']], 'picture': 1, 'extra': True, 'thumbnail': False, 'container': True}
+        for i, t in enumerate(alltypes):
+            newv = NEW[t][0] if t in NEW else u'new'
+            fixed.append(dict(base, decls=[decl_of(t, 0)], data=[(u'f0', newv)]))
+        fixed.append(dict(base, decls=[decl_of(t, i) for i, t in enumerate(alltypes)],
+                          data=[(u'f%d' % i, NEW[t][0] if t in NEW else u'n\x85l') for i, t in enumerate(alltypes)]))
+        for ch in EDGE_CHARS:
+            fixed.append(dict(base, decls=[decl_of(u'string', 0), decl_of(None, 1), [(u'text:name', u'k' + source_safe(ch)), (u'office:value-type', u'string'), (u'office:string-value', u'v' + source_safe(ch))]],
+                              data=[(u'f0', u'a' + ch + u'b'), (u'f1', ch)]))
         for i in range(N):
-            case = gen_case(chk.rng)
+            case = fixed[i] if i < len(fixed) else gen_case(chk.rng)
             src_names = set(dict(a)[u'text:name'] for a in case['decls'] + case['header'])
             hit = [k for k, _ in case['data'] if k in src_names]
             types = [dict(a).get(u'office:value-type') for a in case['decls'] + case['header'] if dict(a)[u'text:name'] in hit]
